@@ -50,8 +50,7 @@ theorem evalEntry_once (t : Prim) (ht : isTestP t = true) (v : Visit Attr) (g : 
     starting point the commands started are those started before followed by exactly one command
     per in-range reachable entry that satisfies the test — in visit order, each with that entry's
     substituted argument vector and working directory — whatever the commands return. -/
-theorem whole_walk_once_exact (t : Prim) (ht : isTestP t = true) (c : Config) (root : Node Attr) (g : GS)
-    (hH : (refCfg c).depthFirst = true → ¬ HRootLink (refCfg c) (if c.sorted then sortNode root else root)) :
+theorem whole_walk_once_exact (t : Prim) (ht : isTestP t = true) (c : Config) (root : Node Attr) (g : GS) :
     let n := if c.sorted then sortNode root else root
     (processDir c (.and [.prim t, .prim (.exec dir true cmd tmpl)]) start (some root) g).gs.execs =
       g.execs ++ (visitsN (refCfg c) [] 0 n).flatMap (ranBy dir cmd tmpl start t) := by
@@ -64,7 +63,7 @@ theorem whole_walk_once_exact (t : Prim) (ht : isTestP t = true) (c : Config) (r
     · refine processRoot_pre (refCfg c) (evalEntry m start) hdf ?_ n _
       intro v s hp
       rw [(hev v s).1] at hp; cases hp
-    · exact processRoot_post (refCfg c) (evalEntry m start) hdf n (hH hdf) _
+    · exact processRoot_postAny (refCfg c) (evalEntry m start) hdf n _
   have hex := refNode_exact (refCfg c) (evalEntry m start) GS.execs (ranBy dir cmd tmpl start t) hev [] 0 n
     ⟨{ g with curDir := none }, 0, 0⟩
   have hall : m.AllP (SoleOnce dir cmd tmpl) := by
